@@ -55,7 +55,7 @@ def judge(job):
         nsmap = {"t": vdoc.T, "": vdoc.T, "x": vdoc.X}
         try:
             errors = list(s.iter_errors(root, namespaces=nsmap))
-            valid = s.is_valid(root)
+            valid = s.is_valid(root, namespaces=nsmap)
         except Exception as e:      # noqa: BLE001
             out.append((rec, ver, parser, xml, f"raised {type(e).__name__}: {e}"[:200]))
             continue
